@@ -32,6 +32,10 @@ HOSTILE += ["2", "3", "4", "\xb2", "\u2460", "\xb2\xb3", "\u0663", "1\xb2"]
 HOSTILE += ["a{99999999999}", "a{1,4294967296}", "(" * 2000 + "a" + ")" * 2000]
 # names of attributes and methods of the objects a CID is loaded into
 HOSTILE += ["location", "_location", "Location", "set_property", "validate", "is valid", "allowed_characters", "__dict__", "_format", "encoding_", "sheet_", "cid", "data_format", "name", "rule", "field_name"]
+# valid values in another letter case (the documentation itself writes 'Minimal'); what is consumed later must cope with them
+HOSTILE += ["Minimal", "ALL", "MiNiMaL", "True", "FALSE", "Any", "CrLf", "UTF-8", "Latin-1", "DELIMITED", "Fixed", "Integer", "TEXT", "isunique", "X"]
+# check rules that reach for Python's builtins
+HOSTILE += ["kind < 5 and exit()", "kind < 5 and quit(3)", "kind < len(__import__('sys').argv)", "kind < 5 and print('x')", "kind < abs(-3)", "kind < int('3')"]
 # an integer limit of more digits than Python converts to decimal text (4300 by default)
 HOSTILE += ["0...0x" + "f" * 4000, "-0x" + "f" * 4000 + "...0"]
 # a sound first token followed by something the tokenizer or the parser rejects right there
@@ -45,8 +49,9 @@ FIELDS["excel"] = FIELDS["ods"] = FIELDS["delimited"]
 FIELDS["fixed"] = [[f[0], f[1], f[2], w, f[4], f[5]] for f, w in zip(FIELDS["delimited"], ["5", "10", "1", "10", "5", "3", "2", "1"])]
 CHECKS = [["id unique", "IsUnique", "id"], ["kinds", "DistinctCount", "kind < 3"]]
 DATA = [["1", "Bob", "a", "2000-01-31", "1.50", "abc", "ab", "K"], ["2", "", "b", "", "99.99", "a", "zz", "K"], ["30", "Alice", "a", "1999-12-31", "0", "axx", "qr", "K"]]
-PROPS = {"delimited": [["Header", "0"], ["Encoding", "utf-8"], ["Line delimiter", "LF"], ["Item delimiter", ","], ["Quote character", '"'], ["Allowed characters", "32..."]],
-         "fixed": [["Encoding", "utf-8"], ["Line delimiter", "LF"], ["Allowed characters", "32..."]],
+PROPS = {"delimited": [["Header", "0"], ["Encoding", "utf-8"], ["Line delimiter", "LF"], ["Item delimiter", ","], ["Quote character", '"'], ["Allowed characters", "32..."],
+                       ["Quoting", "minimal"], ["Escape character", '"'], ["Skip initial space", "false"], ["Decimal separator", "."], ["Thousands separator", ""]],
+         "fixed": [["Encoding", "utf-8"], ["Line delimiter", "LF"], ["Allowed characters", "32..."], ["Decimal separator", "."], ["Thousands separator", ""]],
          "excel": [["Header", "0"], ["Sheet", "1"]], "ods": [["Header", "0"], ["Sheet", "1"]]}
 WIDTHS = [5, 10, 1, 10, 5, 3, 2, 1]
 ALLOWED = ("InterfaceError", "DataError", "DataFormatError", "FieldValueError", "CheckError", "RangeValueError")
@@ -218,8 +223,34 @@ def where_name(row, column):
     return "%s.%s%s" % (kind, columns[column] if column < len(columns) else "extra", detail)
 
 
+ODS_ATTRIBUTE_VALUES = ["0", "-1", "x", "", "1e3", "1.5", " 2", "99999999999999999999", "00", "+1", "\xb2"]
+
+
+def ods_attribute_case(case, part):
+    """ODS data in which one repeat-count attribute (cells or blanks) holds a hostile value: every ending but rows or a cutplace error is a leak.
+    case: {"ods_attribute": "columns" | "blanks", "value": text}"""
+    table = [list(row) for row in DATA]
+    table[0][1] = "Bo  b"
+    content = odf.content_xml([table], {"all_spaces_as_s": True, "explicit_c": True}).decode("utf-8")
+    if case["ods_attribute"] == "columns":
+        content = content.replace("<table:table-cell>", '<table:table-cell table:number-columns-repeated="%s">' % case["value"], 1)
+    else:
+        content = content.replace('text:c="2"', 'text:c="%s"' % case["value"], 1)
+    path = os.path.join(readermachine.tmpdir(), "attribute_%d.ods" % os.getpid())
+    odf.write_ods(path, [table], {}, raw_content=content.encode("utf-8"))
+    part.evaluations += 1
+    part.nontrivial += 1
+    leaks = exercise("ods", base_rows("ods"), table, part, data_path=path)
+    part.validated += 1
+    part.outcome("leak" if leaks else "clean")
+    for where, exception in leaks:
+        part.fail("ods|data:attribute:%s|%s|%s|%r" % (case["ods_attribute"], where.split(":")[0], exception, case["value"]), case, "success, InterfaceError or DataError", [where, exception])
+
+
 def judge(case, part):
     """case: {"format", "cid": [[row, column, value], ...], "data": [[row, column, value], ...]} (injected hostile cells)"""
+    if "ods_attribute" in case:
+        return ods_attribute_case(case, part)
     if "target" in case:  # replay of a container or stream case
         return container_case(case, part)
     if "ending" in case:
@@ -570,6 +601,9 @@ def run(ctx):
             for column in range(len(DATA[0])):
                 for value in HOSTILE:
                     cases.append({"format": fmt, "data": [[row, column, value]], "main": row == 0 and fmt in ("delimited", "excel")})
+    for attribute in ("columns", "blanks"):
+        for value in ODS_ATTRIBUTE_VALUES:
+            cases.append({"ods_attribute": attribute, "value": value})
     for row in range(len(DATA) if not quick else 1):
         for column in range(len(DATA[0])):
             for value in NATIVE:
